@@ -512,10 +512,12 @@ theorem q_path_cons_slash (e : Env) (p : Str) (hp : PyStr (47 :: p)) (hn : NoSur
 def builtUrl (e : Env) (sc h p f : Str) : Url :=
   fromParts sc h (q e Gen.PATH_QUOTER p) [] (if f.isEmpty then f else q e Gen.FRAGMENT_QUOTER f)
 
-theorem build_family (e : Env) (sc h p f : Str) (ph : PlainHost h)
+/-- `build` stores the LOWERED scheme `sc'` (fix e21485a); for an ASCII `sc` that is `lower sc`, otherwise
+    the oracle's answer -/
+theorem build_family (e : Env) (sc sc' h p f : Str) (hl : lowerAny e sc = .ok sc') (ph : PlainHost h)
     (hp : PyStr (47 :: p)) (hn : NoSurrogate (47 :: p)) (hdot : 46 ∉ p) :
     build e { scheme := sc, host := h, path := 47 :: p, fragment := f } =
-      .ok (builtUrl e sc h (47 :: p) f) := by
+      .ok (builtUrl e sc' h (47 :: p) f) := by
   have hne := isEmpty_false ph.ne
   have hq := q_path_cons_slash e p hp hn
   have hd : mem 46 (q e Gen.PATH_QUOTER (47 :: p)) = false := by
@@ -526,7 +528,7 @@ theorem build_family (e : Env) (sc h p f : Str) (ph : PlainHost h)
   simp only [List.isEmpty_nil, Bool.not_true, Bool.false_and, Bool.false_eq_true, ↓reduceIte,
     ne_eq, not_true_eq_false, qargTruthy, hne, Bool.not_false, Bool.and_false,
     Option.map_none, Option.isNone_none, Bool.and_self, encodeHost_plain e.o h true ph, bind,
-    Except.bind, pure, Except.pure, List.isEmpty_cons, hq, hd, fromParts]
+    Except.bind, pure, Except.pure, List.isEmpty_cons, hq, hd, fromParts, hl]
 
 /-! ### `human_repr` of the built URL -/
 
@@ -606,6 +608,18 @@ instance (sc : Str) : Decidable (ValidScheme sc) :=
   if k : sc ≠ [] ∧ (∀ c ∈ sc, mem c Gen.schemeChars = true) ∧ lower sc = sc then
     isTrue ⟨k.1, k.2.1, k.2.2⟩
   else isFalse (fun p => k ⟨p.ne, p.chars, p.low⟩)
+
+theorem schemeChars_ascii : ∀ c ∈ Gen.schemeChars, c < 128 := by decide
+
+/-- a valid (lower-case, scheme-character) scheme is stored as it is by `build` / `with_scheme` -/
+theorem ValidScheme.lowerAny_eq {sc : Str} (vs : ValidScheme sc) (e : Env) : lowerAny e sc = .ok sc := by
+  have ha : isAscii sc = true := by
+    unfold isAscii
+    rw [List.all_eq_true]
+    intro c hc
+    simpa using schemeChars_ascii c (GenTabs.mem_iff.mp (vs.chars c hc))
+  unfold lowerAny
+  rw [if_pos ha, vs.low]; rfl
 
 def fragTail (rf : Str) : Str := if rf.isEmpty then [] else 35 :: rf
 
@@ -840,10 +854,11 @@ def builtUrlU (e : Env) (sc : Str) (user pw : Option Str) (h p f : Str) : Url :=
   fromParts sc (makeNetloc (q e Gen.QUOTER) user pw (some h) none true) (q e Gen.PATH_QUOTER p) []
     (if f.isEmpty then f else q e Gen.FRAGMENT_QUOTER f)
 
-theorem build_userinfo (e : Env) (sc : Str) (user pw : Option Str) (h p f : Str) (ph : PlainHost h)
+theorem build_userinfo (e : Env) (sc sc' : Str) (hl : lowerAny e sc = .ok sc') (user pw : Option Str)
+    (h p f : Str) (ph : PlainHost h)
     (hp : PyStr (47 :: p)) (hn : NoSurrogate (47 :: p)) (hdot : 46 ∉ p) :
     build e { scheme := sc, user := user, password := pw, host := h, path := 47 :: p, fragment := f } =
-      .ok (builtUrlU e sc user pw h (47 :: p) f) := by
+      .ok (builtUrlU e sc' user pw h (47 :: p) f) := by
   have hne := isEmpty_false ph.ne
   have hq := q_path_cons_slash e p hp hn
   have hd : mem 46 (q e Gen.PATH_QUOTER (47 :: p)) = false := by
@@ -861,7 +876,7 @@ theorem build_userinfo (e : Env) (sc : Str) (user pw : Option Str) (h p f : Str)
   simp only [List.isEmpty_nil, Bool.not_true, Bool.false_and, Bool.false_eq_true, ↓reduceIte,
     ne_eq, not_true_eq_false, qargTruthy, hne, Bool.not_false, Bool.and_false,
     Option.map_none, encodeHost_plain e.o h true ph, bind,
-    Except.bind, pure, Except.pure, hnet, hnl, Bool.and_true, List.isEmpty_cons, hq, hd, fromParts]
+    Except.bind, pure, Except.pure, hnet, hnl, Bool.and_true, List.isEmpty_cons, hq, hd, fromParts, hl]
 
 /-- the decoded texts given to `build` -/
 def UText (x : Option Str) : Prop := ∀ s, x = some s → PyStr s ∧ NoSurrogate s
